@@ -125,6 +125,14 @@ def m_str_misc(ex, f, a):
         return NONE() if k < 0 else some(Agg('tuple', 0, [mkstr(t[:k]), mkstr(t[k + len(p):])]))
     if op == 'lines': return Iter([mkstr(x) for x in t.splitlines()])
     if op == 'split_whitespace': return Iter([mkstr(x) for x in t.split()])
+    if op == 'get':
+        rg = ex.deref(a[1])
+        if isinstance(rg, Agg) and len(rg.fields) == 2:      # str::get(start..end): None unless both ends are in range and on char boundaries
+            st_ = ex.concretize(rg.fields[0], 'str::get start'); en_ = ex.concretize(rg.fields[1], 'str::get end'); b = t.encode()
+            if not (0 <= st_ <= en_ <= len(b)): return NONE()
+            try: return some(mkstr(b[st_:en_].decode()))
+            except UnicodeDecodeError: return NONE()
+        raise Unsupported('str::get with a non-range index')
     if op == 'repeat': return mkstr(t * a[1])
     if op == 'eq_ignore_ascii_case': return t.lower() == pystr(ex.deref(a[1])).lower()
     if op == 'parse':
